@@ -158,7 +158,7 @@ func observeAll(docs []docSpec, reads []readSpec, perm int64, res *fw.Result, do
 	for _, w := range ws {
 		for _, wa := range w.warns {
 			// a generated declaration that webrender rejects makes the case meaningless
-			if strings.HasSuffix(strings.TrimSpace(wa), ", no value") {
+			if strings.HasSuffix(strings.TrimSpace(wa), ", no value") || strings.Contains(wa, "var(--c04-undefined)") {
 				continue // the expected report for `p: var(--c04-undefined)` (invalid at computed-value time)
 			}
 			if strings.Contains(wa, "Ignored") || strings.Contains(wa, "Error") {
